@@ -36,7 +36,7 @@ def main():
         t0 = time.time()
 
         def one(p):
-            rc, out = sh(f"VERIF_REPO={WT} VERIF_EVIDENCE_DIR=/tmp/matrix-evidence ./check {p} --tier quick", cwd=VERIF)
+            rc, out = sh(f"VERIF_REPO={WT} VERIF_EVIDENCE_DIR=/tmp/matrix-evidence timeout 1500 ./check {p} --tier quick", cwd=VERIF)
             v = [l for l in out.splitlines() if l.startswith("VIOLATION")]
             kind = "-"
             if rc == 1 and v:
